@@ -31,6 +31,15 @@ CLAIMED = {
         "DESIGN.md §4 C15",
         "exploration",
     ),
+    "C14": (
+        "complete enumeration of the configuration product vs a pure oracle function",
+        "The finite product of connect arguments x letter case x auto-create flags x storage mode x prior state x connection order is "
+        "enumerated completely (quick: 2560 configurations, thorough: 30720) and each outcome compared with a pure function of the "
+        "configuration; exhaustive over that product, exploration beyond it.",
+        "Prior state is built through an option-less session with fully qualified DDL; 'database exists' means attached in the live instance.",
+        "DESIGN.md §4 C14",
+        "exploration",
+    ),
 }
 
 NOT_YET = {}
